@@ -289,8 +289,13 @@ func genEqPair(t *rapid.T, optSets []string, withPrecision bool) PairCase {
 		a, b = stripNulls(a), stripNulls(b)
 	}
 	if ks := jdx.SetKeysOf(opts); ks != nil {
-		// Keys only matter for Diff; Equals under SetKeys is set equality.
-		_ = ks
+		// Precondition of SetKeys: complete, unique key tuples per array.
+		if !val.IsVoid(a) {
+			a = gen.Keyify(a, ks)
+		}
+		if !val.IsVoid(b) {
+			b = gen.Keyify(b, ks)
+		}
 	}
 	return PairCase{A: val.JSON(a), B: val.JSON(b), Opts: opts}
 }
